@@ -491,6 +491,40 @@ def findings(ctx, drv, exe):
             ctx.notes.append('finding %s no longer reproduces (implementation now returns the prescribed value)' % key)
             ctx.extra.setdefault('findings_not_reproduced', []).append(key)
 
+def search_derivs(ctx, exe, n):
+    """property predicate on the implementation only: every derivative order a Sinusoid / Time / Constant measure reports is the
+    (central finite-difference) time derivative of the next lower order"""
+    r = ctx.rng; lines = []; meta = []
+    h = 1.0 / 8192
+    for c in range(n):
+        a, w, p = r.uniform(-2, 2), r.uniform(0.5, 6) * r.choice((-1, 1)), r.uniform(-3, 3)
+        t = dy(r, -2, 2); k = r.randrange(3)
+        leaf = r.choice(('S', 'S', 'S', 'T'))
+        tree = ('S', a, w, p) if leaf == 'S' else ('T',)
+        lines += ['CASE d%d' % c, 'TREE ' + ttxt(tree), 'BEGIN ' + hx(t - h), 'R 4', 'G 0 %d -' % k, 'T ' + hx(t + h), 'R 4', 'G 0 %d -' % k,
+                  'T ' + hx(t), 'R 4', 'G 0 %d -' % (k + 1), 'END']
+        meta.append((tree, t, k))
+    rc, out, err = sh([exe], input='\n'.join(lines) + '\n', timeout=600)
+    cases = split_cases([l for l in out.split('\n') if l.strip()])
+    if rc != 0 or len(cases) != n:
+        ctx.broken.append(('search:derivs', 'drive harness failed rc=%s' % rc)); return
+    nfail = 0
+    for (tree, t, k), cl, inl in zip(meta, cases, split_cases(lines)):
+        try:
+            lo, hi, d = fx(cl[3].split()[2]), fx(cl[6].split()[2]), fx(cl[9].split()[2])
+        except Exception:
+            continue
+        fd = (hi - lo) / (2 * h)
+        sc = 1.0 if tree[0] == 'T' else abs(tree[1]) * max(1.0, abs(tree[2])) ** (k + 3)
+        if abs(fd - d) > 1e-6 * sc + 1e-9:
+            nfail += 1
+            if nfail == 1:
+                ctx.broken.append(('spec:reported_derivatives_are_derivatives', 'order %d of %s at t=%s: reported %r, finite difference of order %d gives %r' % (k + 1, ttxt(tree), hx(t), d, k, fd)))
+                ctx.report('impl:reported_derivatives_are_derivatives', 'implementation: reported derivative of order %d of %s at t=%s is %r but the central difference of order %d is %r' % (k + 1, ttxt(tree), hx(t), d, k, fd),
+                           {'case': inl, 'implementation_output': cl, 'replay_cmd': 'printf "%%s\\n" <case lines> | %s' % exe})
+    ctx.extra.setdefault('search', {})['derivative_predicate'] = {'evaluations': n, 'failures': nfail}
+    ctx.cov['evaluations'] += n
+
 def sample_hold_tie(ctx):
     """SampleAndHold is declared in Measure.h but has no Implementation class: the model of it is a specification only.
     If an implementation appears the untied spec must be replaced by a tied model."""
@@ -512,10 +546,12 @@ def run(ctx):
         corr_drive(ctx, drv, exes['drive'], 250 if quick else 5000)
         corr_integ(ctx, drv, exes, 40 if quick else 600)
         findings(ctx, drv, exes['drive'])
+        search_derivs(ctx, exes['drive'], 60 if quick else 2000)
         if ctx.broken and not any(v[2] for v in ctx.violations):
             # failing-input search: the theorems' right-hand sides on many more real integrator runs
             ctx.log('break detected: failing-input search on more integrator runs')
             corr_integ(ctx, drv, exes, 150 if quick else 1000)
+            search_derivs(ctx, exes['drive'], 600)
     ctx.cov['rule'] = ('(1) direct drive: generated operation sequences over 1-3 measure trees (depth <= 3, 0-2 Variables with invalidated stage '
                        'Instance/Time/Position/Dynamics) and 1-4 machines (Extreme x4 operations, Delay with delay 0 / below / above the step, '
                        'Differentiate; Real and Vec3), integrator-like cycles disturbed by equal times, time going back, gets one stage early, '
